@@ -155,10 +155,16 @@ def mk_authblock(b):
     raise ValueError(b)
 
 
-def mk_encryptor(b, public_only=False):
+def mk_encryptor(b, public_only=False, role="writer"):
     """The encryptor/decryptor object that opens (and writes) block b; None when nobody can (default ECC key)."""
     if b["kind"] == "cust":
-        return B2.SoftwareCustKeyEncryptor(b["crypto_key"], b.get("customer_key"), 0 if b.get("customer_key") else None)
+        ck = b.get("customer_key")
+        if ck and (ck[0] + (role == "reader")) % 2:  # writer and reader of one file are configured in DIFFERENT ways
+            # the customer key is configured AFTER construction, through the public attributes
+            e = B2.SoftwareCustKeyEncryptor(b["crypto_key"])
+            e.customer_key, e.customer_key_pos = ck, 0
+            return e
+        return B2.SoftwareCustKeyEncryptor(b["crypto_key"], ck, 0 if ck else None)
     if b["kind"] == "ecc":
         if b.get("priv") is None:
             return None
@@ -177,7 +183,10 @@ def mk_bec2(case):
     # both ways of giving a file its auth blocks: all through the constructor, or the last k through add_auth_block (k from the case)
     k = (len(blocks) + len(case.get("comps", ())) + len(case.get("comments", ()))) % (len(blocks) + 1) if blocks else 0
     first, later = blocks[: len(blocks) - k], blocks[len(blocks) - k:]
-    bec = Bec2File(f, first) if case.get("key") is None else Bec2File(f, first, case["key"])
+    # (session keys are bytes objects, as declared: a bytearray key is not supported by the unchanged library - pyaes refuses bytearray DATA,
+    # and the ECC block encrypts the session key as data)
+    key = case.get("key")
+    bec = Bec2File(f, first) if key is None else Bec2File(f, first, key)
     for b in later:
         bec.add_auth_block(b)
     return bec
